@@ -12,4 +12,6 @@ for e in engines/*/; do
   "$GO" test -c -modfile="$T/go.mod" -o "$T/warm.test" "./$e" >/dev/null 2>&1 || true
 done
 rm -rf "$T"
+# hold the simulated kernel to the real one (exit 2 = the stub is not trustworthy)
+bin/check selftest-kernel || exit 2
 echo "setup done"
